@@ -60,6 +60,11 @@ std::vector<CheckDef>& check_table()
 		  "(1) test-rewrite reproduces every content copy byte for byte; (2) the independent decoder's view (files with size/stamp/inode, links, per-stripe used/unsynced/bad/rehash/time) equals list -l and status -G -l; (3) loading from each copy alone gives the same dumps; "
 		  "(4) content files synthesised by the independent encoder from a reached state with values at varint boundaries (inodes up to 2^64-1, seconds up to 2^63-1, nsec 0/invalid/999999999, free/total blocks up to 2^32-1, block runs moved to positions 127..2097152 giving long hole runs) are rewritten byte for byte - "
 		  "part (4) is plain input generation, no schedule or fault is involved. Non-trivial = every reached state judged; distinct = distinct content file bytes" },
+		{ "C20", "exploration", { { "views", 1500, 30000 } },
+		  "recorded states reached by seeded histories (complete and partial syncs, scrubs giving bad marks, changes after the sync) with names containing spaces, tabs, newlines, carriage returns, colons, backslashes, quotes, glob characters, leading dashes and non-UTF-8 bytes, "
+		  "duplicate groups of 2-4 files across disks, the same path on several disks, files with zero sub-second stamps, a pool directory pre-populated with stale links, empty directories and foreign files, with and without a share prefix. "
+		  "list = recorded files/links with size and stamp (names compared after inverting the tag escaping); status counters and named files = decoded state; dup pairs = exactly the content-equality partition of non-empty fully hashed files computed from the harness copy (hash size 16, no migration); "
+		  "pool tree = exactly one symlink per recorded file/link (first disk wins) with the right target, stale links and empty dirs gone, foreign files kept. Non-trivial = every recorded state judged; distinct = distinct content files" },
 		{ "C06", "exploration", { { "parity-inv", 4000, 80000 }, { "crash", 16, 400 } },
 		  "seeded histories of file-system changes interleaved with sync variants/scrub/fix/touch/rehash/check under seeded schedules; the independent parity oracle runs after every command. "
 		  "A run is non-trivial when at least one fully synced stripe was compared with parity and >= 3 commands ran; distinct = distinct (config, op sequence) hashes" },
